@@ -138,7 +138,7 @@ PROPS = {
                  'one call-site note per call site naming the calling templates in order and designating a line:column inside the call construct, with the call sites at the top level or inside filter sections, set-blocks, loops, ifs and component bodies. One case in twelve registers 2-4 faulty children in one batch (orphan top-level blocks, unknown filters/tests/functions/include targets, 1-2 per template): the combined report must hold one entry per fault, each with its own template name, line:column and quoted line.',
         'note': 'the per-fault token table is kept by hand and calibrated on the pinned tree (every fault kind yields a located error there); a zero-width span on the first byte of the offending token counts as touching it; resource-limit errors (un-located Msg) are outside this property',
         'rule': "one evaluation = one injected fault; a cell = (fault class, fault kind, placement, line class [first/later line, multi-byte text before the fault on its line, column 0])",
-        'must_observe': ['spans_checked_with_coordinates', 'build_reports_checked', 'display_calls', 'call_site_positions_checked', 'faults_spread_over_lines', 'multi_template_build_reports', 'faults_reached_from_one_off_strings'],
+        'must_observe': ['spans_checked_with_coordinates', 'build_reports_checked', 'display_calls', 'call_site_positions_checked', 'faults_spread_over_lines', 'multi_template_build_reports', 'faults_reached_from_one_off_strings', 'faults_under_custom_delimiters'],
     },
     'C19': {
         'scale': {'quick': 2, 'thorough': 3},
